@@ -106,13 +106,13 @@ Proof.
   pose proof (ok_f_created _ _ H i) as Y. rewrite N, X in Y. discriminate.
 Qed.
 
-Lemma add_f_stable ts0 g c d g' c' d' st i ts :
-  reg_ok g c -> add_f good ts0 (g, c, d) = ((g', c', d'), st) -> lookup i (gF g) = Some ts -> lookup i (gF g') = Some ts.
+Lemma add_f_stable ts0 ats0 g c d g' c' d' st i ts :
+  reg_ok g c -> add_f good ts0 ats0 (g, c, d) = ((g', c', d'), st) -> lookup i (gF g) = Some ts -> lookup i (gF g') = Some ts.
 Proof.
   intros H E X. unfold add_f in E.
-  destruct (negb (nodupb ts0)); [inversion E; subst; auto|].
+  destruct (negb (nodupb ts0 && anodupb ats0)); [inversion E; subst; auto|].
   destruct (existsb _ (fr c)); [inversion E; subst; auto|].
-  destruct (negb (subsetb ts0 (onodes g))); [inversion E; subst; auto|].
+  destruct (negb (subsetb ts0 (onodes g) && _)); [inversion E; subst; auto|].
   pose proof (new_f_fresh g c) as Hfresh.
   inversion E; subst; clear E. simpl. rewrite lookup_set_key.
   destruct (Nat.eqb_spec i (new_f good g c)) as [->|N]; auto.
@@ -124,9 +124,9 @@ Lemma add_fs_stable tss : forall g c d g' c' d' st i ts,
 Proof.
   induction tss as [|ts0 rest IH]; intros g c d g' c' d' st i ts H E X.
   - simpl in E. inversion E; subst; auto.
-  - rewrite add_fs_cons in E. destruct (add_f good ts0 (g, c, d)) as [[[g1 c1] d1] st1] eqn:E1.
-    pose proof (add_f_stable _ _ _ _ _ _ _ _ _ _ H E1 X) as X1.
-    destruct (add_f_ok _ _ _ _ _ _ _ _ H E1) as [K1 _].
+  - rewrite add_fs_cons in E. destruct (add_f good ts0 [] (g, c, d)) as [[[g1 c1] d1] st1] eqn:E1.
+    pose proof (add_f_stable _ _ _ _ _ _ _ _ _ _ _ H E1 X) as X1.
+    destruct (add_f_ok _ _ _ _ _ _ _ _ _ H E1) as [K1 _].
     destruct st1; [eapply IH; eauto|inversion E; subst; auto].
 Qed.
 
@@ -174,24 +174,100 @@ Proof.
   eapply lstep_stable; eauto. apply (wi_ok _ (run_winv ops) _ _ Hg).
 Qed.
 
+(* the same for the augmented targets *)
+Lemma lookup_gFa_present g c i ats : reg_ok g c -> lookup i (gFa g) = Some ats -> In (FN i) (anodes g).
+Proof.
+  intros H X. apply (ok_f_present _ _ H). apply keys_lookup. intros N.
+  pose proof (ok_fa_created _ _ H i) as Y. rewrite N, X in Y. discriminate.
+Qed.
+
+Lemma add_f_stable_a ts0 ats0 g c d g' c' d' st i ats :
+  reg_ok g c -> add_f good ts0 ats0 (g, c, d) = ((g', c', d'), st) -> lookup i (gFa g) = Some ats -> lookup i (gFa g') = Some ats.
+Proof.
+  intros H E X. unfold add_f in E.
+  destruct (negb (nodupb ts0 && anodupb ats0)); [inversion E; subst; auto|].
+  destruct (existsb _ (fr c)); [inversion E; subst; auto|].
+  destruct (negb (subsetb ts0 (onodes g) && _)); [inversion E; subst; auto|].
+  pose proof (new_f_fresh g c) as Hfresh.
+  inversion E; subst; clear E. simpl. rewrite lookup_set_key.
+  destruct (Nat.eqb_spec i (new_f good g c)) as [->|N]; auto.
+  exfalso. apply Hfresh. eapply lookup_gFa_present; eauto.
+Qed.
+
+Lemma add_fs_stable_a tss : forall g c d g' c' d' st i ats,
+  reg_ok g c -> add_fs good tss (g, c, d) = ((g', c', d'), st) -> lookup i (gFa g) = Some ats -> lookup i (gFa g') = Some ats.
+Proof.
+  induction tss as [|ts0 rest IH]; intros g c d g' c' d' st i ats H E X.
+  - simpl in E. inversion E; subst; auto.
+  - rewrite add_fs_cons in E. destruct (add_f good ts0 [] (g, c, d)) as [[[g1 c1] d1] st1] eqn:E1.
+    pose proof (add_f_stable_a _ _ _ _ _ _ _ _ _ _ _ H E1 X) as X1.
+    destruct (add_f_ok _ _ _ _ _ _ _ _ _ H E1) as [K1 _].
+    destruct st1; [eapply IH; eauto|inversion E; subst; auto].
+Qed.
+
+Lemma drop_stable_a a g i ats : a <> FN i -> lookup i (gFa g) = Some ats -> lookup i (gFa (drop_node a g)) = Some ats.
+Proof.
+  intros N X. destruct a as [j|j]; simpl; auto. rewrite lookup_remove_key.
+  destruct (Nat.eqb_spec i j) as [->|]; [congruence|auto].
+Qed.
+
+Lemma remove_augs_stable_a l : forall g c d g' c' d' st i ats,
+  remove_augs good l (g, c, d) = ((g', c', d'), st) -> ~ In (FN i) l -> lookup i (gFa g) = Some ats ->
+  lookup i (gFa g') = Some ats.
+Proof.
+  unfold remove_augs. simpl.
+  induction l as [|a l IH]; intros g c d g' c' d' st i ats E K X; simpl in E.
+  - inversion E; subst; auto.
+  - assert (K1 : a <> FN i) by (intros Q; apply K; left; auto).
+    assert (K2 : ~ In (FN i) l) by (intros Q; apply K; right; auto).
+    destruct (amemb a (anodes g)).
+    + eapply IH; [exact E|exact K2|]. apply drop_stable_a; auto.
+    + eapply IH; [exact E|exact K2|exact X].
+Qed.
+
+Lemma lstep_stable_a l g c d g' c' d' st i ats :
+  reg_ok g c -> lstep good l (g, c, d) = ((g', c', d'), st) -> lookup i (gFa g) = Some ats -> keeps l (FN i) ->
+  lookup i (gFa g') = Some ats.
+Proof.
+  intros H E X K. destruct l; simpl in E, K.
+  - eapply add_f_stable_a; eauto.
+  - eapply add_fs_stable_a; eauto.
+  - unfold add_s in E. destruct (negb (nodupb ch)); inversion E; subst; auto.
+  - unfold remove_aug in E. destruct (amemb a (anodes g)); inversion E; subst; auto. apply drop_stable_a; auto.
+  - eapply remove_augs_stable_a; eauto.
+  - inversion E; subst; auto.
+  - inversion E; subst; auto.
+Qed.
+
+Lemma created_stable_aug_good : created_stable_aug_stmt good.
+Proof.
+  intros ops o l g g' i ats w Hg Hg' X K.
+  destruct (step_on_good w o l g Hg) as [g1 [c1 [d1 [st [L S]]]]].
+  rewrite S in Hg'. simpl in Hg'.
+  rewrite nth_error_upd_eq in Hg' by (apply nth_error_Some; congruence).
+  inversion Hg'; subst g'. simpl.
+  eapply lstep_stable_a; eauto. apply (wi_ok _ (run_winv ops) _ _ Hg).
+Qed.
+
 (* ---------------------------------------------------------------- clause 2 *)
 Lemma fresh_f_good : fresh_f_stmt good.
 Proof.
-  intros ops o ts w' w S.
+  intros ops o ts ats w' w S.
   destruct (nth_error (objs w) o) as [g|] eqn:Hg; [|unfold step in S; rewrite Hg in S; inversion S].
   pose proof (wi_ref _ (run_winv ops) _ _ Hg) as Hr. fold w in Hr.
   assert (Ho : o < length (objs w)) by (apply nth_error_Some; congruence).
   unfold step in S. rewrite Hg in S. unfold dom_of in S. simpl in S. unfold add_f in S.
-  destruct (negb (nodupb ts)); [inversion S|].
+  destruct (negb (nodupb ts && anodupb ats)); [inversion S|].
   destruct (existsb _ _); [inversion S|].
-  destruct (negb (subsetb ts (onodes g))); [inversion S|].
+  destruct (negb (subsetb ts (onodes g) && _)); [inversion S|].
   pose proof (new_f_fresh g (nth (reg g) (heap w) empty_cell)) as Hfresh.
   remember (new_f good g (nth (reg g) (heap w) empty_cell)) as i eqn:Hi. clear Hi.
   inversion S; subst w'; clear S.
   eexists i, g, _. split; [reflexivity|]. simpl. split; [apply nth_error_upd_eq; auto|]. simpl.
   split; [exact Hfresh|]. split; [apply adda_fresh; auto|]. split; [reflexivity|].
   split; [rewrite lookup_set_key, Nat.eqb_refl; reflexivity|].
-  unfold cell_of; simpl. rewrite nth_upd_eq by auto. simpl. rewrite lookup_set_key, Nat.eqb_refl. reflexivity.
+  split; [rewrite lookup_set_key, Nat.eqb_refl; reflexivity|].
+  unfold cell_of; simpl. rewrite nth_upd_eq by auto. simpl. rewrite lookup_set_key, Nat.eqb_refl. split; reflexivity.
 Qed.
 
 Lemma fresh_s_good : fresh_s_stmt good.
